@@ -55,6 +55,19 @@ def run(prop, tier, seed, verdict):
         for out, log_ in ex.map(run_shard, jobs):
             G.update(dev.parse_outputs(out))
             logs.append(log_)
+    # the same scripts, each alone, in separate processes
+    ajobs = []
+    for s in range(shards):
+        lines = []
+        for i, (sd, nd) in enumerate(runs):
+            if i % shards == s:
+                lines += ["case %d" % i, "life.alone %d %d" % (sd, nd)]
+        ajobs.append((binary, "\n".join(lines) + "\n", workdir, "alone%d" % s))
+    GA = {}
+    with concurrent.futures.ThreadPoolExecutor(max_workers=shards) as ex:
+        for out, log_ in ex.map(run_shard, ajobs):
+            GA.update(dev.parse_outputs(out))
+    cross_checked = 0
     devices = 0
     slowest = 0
     for i, (sd, nd) in enumerate(runs):
@@ -63,7 +76,7 @@ def run(prop, tier, seed, verdict):
         if not l:
             verdict.violation({"clause": "runner-crash"}, {"run": replay, "log": "\n".join(logs)[-3000:]}, False)
             continue
-        f = dict(p.split("=", 1) for p in l[0].split(" ", 4))
+        f = dict(p.split("=", 1) for p in l[0].split(" ", 5))
         devices += nd
         slowest = max(slowest, int(f.get("slowest_ms", "0")))
         if f.get("panic") != "false":
@@ -77,6 +90,24 @@ def run(prop, tier, seed, verdict):
             verdict.violation({"clause": "leftover-goroutines"}, {"run": replay, "outcome": l[0][:300]}, True)
         if f.get("output") != "same":
             verdict.violation({"clause": "cross-talk"}, {"run": replay, "outcome": l[0][:1200]}, True)
+        # the same scripts run alone in another process (life.alone): state shared through the package rather than through
+        # the Device would make the in-process comparison above blind
+        al = [x for x in GA.get(str(i), []) if x]
+        if al and al[0].startswith("alone="):
+            alone = al[0][6:].split(";")
+            conc_o = f.get("conc", "").split(";")
+            for di, (a_, c_) in enumerate(zip(alone, conc_o)):
+                a_l, c_l = [x for x in a_.split(",") if x], [x for x in c_.split(",") if x]
+                k = 0
+                while k < len(a_l) and k < len(c_l) and a_l[k] == c_l[k]:
+                    k += 1
+                if sorted(a_l[k:]) != sorted(c_l[k:]):
+                    verdict.violation({"clause": "cross-talk-across-processes"},
+                                      {"run": replay, "device": di, "first_difference_at": k, "concurrent": c_l[max(0, k - 2):k + 4],
+                                       "alone_in_fresh_process": a_l[max(0, k - 2):k + 4],
+                                       "what": "a device's MIDI output while other devices are active differs from its output when it runs alone"}, True)
+                    break
+            cross_checked += 1
     races = []
     for lg in logs:
         for m in re.finditer(r"WARNING: DATA RACE\n(.*?)\n==================", lg, re.S):
@@ -96,8 +127,10 @@ def run(prop, tier, seed, verdict):
         "evaluations": n, "distinct_nontrivial": n,
         "rule": "life.run(seed, n): n in {1,2,3,4,8} devices with random configurations (4 collision modes), 10-70 key/action events each with "
                 "random pauses, 0-40 MIDI-input messages, LED loop connected for 3 of 4 devices (started 0-600 ms before the events), disconnect "
-                "right after the last event (keys possibly held); each script re-run alone for the cross-talk comparison",
-        "traces_validated_against_impl": n, "devices_run": devices, "slowest_termination_ms": slowest, "race_reports": len(races),
+                "right after the last event (keys possibly held); half of the devices also have an axis mapped to a controller with a deadzone that differs "
+                "from device to device; every fourth LED device talks to a server that needs 400 ms for its first answer and is used once its LED loop "
+                "runs; each script re-run alone in the same process and again in a separate process for the cross-talk comparison",
+        "traces_validated_against_impl": n, "devices_run": devices, "runs_compared_with_fresh_process": cross_checked, "slowest_termination_ms": slowest, "race_reports": len(races),
         "samples": [{"run": "life.run %d %d" % runs[0], "implementation": G.get("0", [])[:1]}],
         "exec_wall_s": round(time.time() - t0, 1),
         "assumptions": ["schedules are sampled under the race detector, not enumerated", "the fake OpenRGB server answers promptly; a peer that never answers "
